@@ -8,7 +8,8 @@
  * Output (stdout):
  *   thr <tid> <role> <index>
  *   inv <tid> <n> <op> <args> @<step>        ret <tid> <n> <result> @<step>
- *   cs  <tid> <exit> sig=<tids> bc=<0|1> q=<tids> ls=<n> imm=<0|1> sched=<0|1> err=<0|1> shut=<0|1> l0=<n> need=<0|1> lognum=<n> @<step>
+ *   cs  <tid> <exit> sig=<tids> bc=<0|1> q=<tids> ls=<n> imm=<0|1> sched=<0|1> err=<0|1> shut=<0|1> l0=<n> need=<0|1> lognum=<n>
+ *       loglen=<bytes written to the newest log> synced=<bytes of it covered by an fsync> @<step>
  *   slp <tid> @<step>
  *   final <key>=<version> ...      done steps=<n> switches=<n>
  * Keys have a single writer thread: key "w<i>k<j>"; values are "<version>:<padding>", version increasing per key.
@@ -19,6 +20,32 @@
 #include <unistd.h>
 #include "sched_port.h"
 #include "db_impl.c"
+
+/* ---- how much of the newest write-ahead log has been written / fsynced (libc interposition, as in iojournal.h) ---- */
+#include <sys/syscall.h>
+#include <fcntl.h>
+#include <stdarg.h>
+static int g_logfd = -1; static long g_loglen = 0, g_logsynced = 0;
+int open(const char *path, int flags, ...) {
+  mode_t mode = 0; int fd; size_t n = strlen(path);
+  if (flags & O_CREAT) { va_list ap; va_start(ap, flags); mode = va_arg(ap, int); va_end(ap); }
+  fd = syscall(SYS_openat, AT_FDCWD, path, flags, mode);
+  if (fd >= 0 && n > 4 && !strcmp(path + n - 4, ".log") && (flags & O_ACCMODE) != O_RDONLY) { g_logfd = fd; g_loglen = 0; g_logsynced = 0; }
+  return fd;
+}
+int open64(const char *path, int flags, ...) {
+  mode_t mode = 0;
+  if (flags & O_CREAT) { va_list ap; va_start(ap, flags); mode = va_arg(ap, int); va_end(ap); }
+  return open(path, flags, mode);
+}
+ssize_t write(int fd, const void *buf, size_t n) {
+  ssize_t r = syscall(SYS_write, fd, buf, n);
+  if (fd == g_logfd && r > 0) g_loglen += r;
+  return r;
+}
+int fsync(int fd) { int r = syscall(SYS_fsync, fd); if (fd == g_logfd && r == 0) g_logsynced = g_loglen; return r; }
+int fdatasync(int fd) { int r = syscall(SYS_fdatasync, fd); if (fd == g_logfd && r == 0) g_logsynced = g_loglen; return r; }
+int close(int fd) { if (fd == g_logfd) g_logfd = -1; return syscall(SYS_close, fd); }
 
 static ldb_t *g_db = NULL;
 static int g_nw, g_nr, g_nops, g_valsize, g_flags;
@@ -49,11 +76,11 @@ static void release_hook(void *mutex, int kind, void *cond) {
   first = 1;
   for (w = g_db->writers.head; w != NULL; w = w->next) { printf("%s%d%s", first ? "" : ",", sched_cond_owner(&w->cv), w->done ? "d" : ""); first = 0; }
   if (first) printf(".");
-  printf(" ls=%llu imm=%d sched=%d err=%d shut=%d l0=%d need=%d lognum=%llu @%ld\n",
+  printf(" ls=%llu imm=%d sched=%d err=%d shut=%d l0=%d need=%d lognum=%llu loglen=%ld synced=%ld @%ld\n",
          (unsigned long long)g_db->versions->last_sequence, g_db->imm != NULL, g_db->background_compaction_scheduled,
          g_db->bg_error != LDB_OK, (int)ldb_atomic_load(&g_db->shutting_down, ldb_order_acquire),
          ldb_versions_files(g_db->versions, 0), ldb_versions_needs_compaction(g_db->versions),
-         (unsigned long long)g_db->logfile_number, sched_now());
+         (unsigned long long)g_db->logfile_number, g_loglen, g_logsynced, sched_now());
   sched_clear_signals();
 }
 
